@@ -726,8 +726,8 @@ def differential(ctx: fw.Ctx) -> None:
     try:
         run_finalizers(ctx, env, D, ctx.scale(300, 2500))
         run_patch_obj(ctx, env, D, ctx.scale(300, 2500))
-        run_decide(ctx, env, D, ctx.scale(1200, 8000))
-        traces = c06_trace.run(ctx, env, ctx.scale(250, 2500))
+        run_decide(ctx, env, D, ctx.scale(1200, 6000))
+        traces = c06_trace.run(ctx, env, ctx.scale(250, 2000))
     finally:
         env.close()
     for name, cases in D.items():
